@@ -461,12 +461,13 @@ Qed.
 (* 2. add_appointment *)
 
 Lemma store_spec t a t2 :
+  w_store_ok t a = true ->
   w_store_appointment t a = Ok tt t2 ->
   db_apps t2 = stored (db_apps t) a /\ db_users t2 = db_users t /\ gk_users t2 = gk_users t /\ db_trks t2 = db_trks t /\ cfg t2 = cfg t.
 Proof.
-  unfold w_store_appointment, stored. destruct (find_app (db_apps t) (app_uuid a)) as [a0|].
-  - intros H; inversion H; subst. repeat split.
-  - destruct (amem (db_users t) (a_user a)); intros H; inversion H; subst. repeat split.
+  unfold w_store_ok, w_store_appointment, stored. destruct (find_app (db_apps t) (app_uuid a)) as [a0|].
+  - intros _ H; inversion H; subst. repeat split.
+  - destruct (amem (db_users t) (a_user a)); [|discriminate]. intros _ H; inversion H; subst. repeat split.
 Qed.
 
 Lemma triggered_spec sc t a d t2 :
@@ -475,8 +476,11 @@ Lemma triggered_spec sc t a d t2 :
   (db_apps t2 = stored (db_apps t) a \/ db_apps t2 = del [app_uuid a] (db_apps t)).
 Proof.
   unfold w_store_triggered. destruct (decrypt (a_blob a) d) as [p|].
-  - destruct (w_store_appointment t a) as [[] t1|] eqn:E1; cbn [bind]; [|discriminate].
-    apply store_spec in E1. destruct E1 as [Ha1 [Hu1 [Hg1 _]]].
+  - destruct (w_store_ok t a) eqn:Eok.
+    2: { intros H; inversion H; subst; clear H. repeat split. right. symmetry. apply del_notin.
+         apply find_app_None. unfold w_store_ok in Eok. destruct (find_app (db_apps t2) (app_uuid a)); [discriminate|reflexivity]. }
+    destruct (w_store_appointment t a) as [[] t1|] eqn:E1; cbn [bind]; [|discriminate].
+    apply (store_spec _ _ _ Eok) in E1. destruct E1 as [Ha1 [Hu1 [Hg1 _]]].
     destruct (r_handle_breach sc t1 (app_uuid a) d p) as [s t3|] eqn:E2; cbn [bind]; [|discriminate].
     apply handle_breach_ua in E2. unfold ua in E2. inversion E2 as [[Hg3 Hu3 Ha3 Hh3]].
     destruct (status_rejected s).
@@ -519,29 +523,34 @@ Proof.
   set (a := mk_app loc u b delay sig (w_height (fresh t))).
   assert (Hu1 : db_users t1 = map (fun r => if N.eqb (fst r) u then (u, mk_uinfo s (u_start ui) (u_expiry ui)) else r) (db_users t)) by reflexivity.
   assert (Ha1 : db_apps t1 = db_apps t) by reflexivity.
-  intros H. exists u, ui.
+  cbv zeta. intros H. exists u, ui.
   destruct (ti_get (w_cache t1) loc) as [d|].
-  - destruct (w_store_triggered sc t1 a d) as [[] t2|] eqn:E2; cbn [bind wrap] in H; inversion H; subst; clear H.
+  - destruct (w_store_triggered sc t1 a d) as [[] t2|] eqn:E2; cbn [bind wrap] in H;
+      [match type of H with context [if ?c then _ else _] => destruct c end|]; inversion H; subst; clear H.
     apply triggered_spec in E2. destruct E2 as [Hu2 [_ Ha2]].
     split; [first [exact Hs|reflexivity]|]. split; [exact Eu|]. split; [exact El|]. split; [reflexivity|].
     split; [rewrite Hu2; exact Hu1|]. rewrite Ha1 in Ha2. exact Ha2.
-  - destruct (w_store_appointment t1 a) as [[] t2|] eqn:E2; cbn [bind wrap] in H; inversion H; subst; clear H.
-    apply store_spec in E2. destruct E2 as [Ha2 [Hu2 _]].
+  - destruct (w_store_ok t1 a) eqn:Eok;
+      destruct (w_store_appointment t1 a) as [[] t2|] eqn:E2; cbn [bind wrap] in H; inversion H; subst; clear H.
+    apply (store_spec _ _ _ Eok) in E2. destruct E2 as [Ha2 [Hu2 _]].
     split; [first [exact Hs|reflexivity]|]. split; [exact Eu|]. split; [exact El|]. split; [reflexivity|].
     split; [rewrite Hu2; exact Hu1|]. left. rewrite Ha1 in Ha2. exact Ha2.
 Qed.
 
 Lemma add_refused_same le t signer loc b delay sig sc t' r :
+  (forall u, user_row_ok t u) ->
   step le t (OAdd signer loc b delay sig) sc = (t', OAddRes r) ->
   match r with AddOk _ _ _ _ => True | _ => same_ledger t t' end.
 Proof.
-  cbn [step wrap]. unfold w_add_appointment. change (set_rpc_log t []) with (fresh t).
-  destruct (authenticate (fresh t) signer) as [u|]; [|cbn; intros H; inversion H; apply same_ledger_fresh].
-  destruct (gk_get (fresh t) u) as [ui|] eqn:Eg; [|cbn; intros H; inversion H].
+  intros Hrow. cbn [step wrap]. unfold w_add_appointment. change (set_rpc_log t []) with (fresh t).
+  destruct (authenticate (fresh t) signer) as [u|] eqn:Eau; [|cbn; intros H; inversion H; apply same_ledger_fresh].
+  apply authenticate_Some in Eau. destruct Eau as [_ Hmem].
+  destruct (gk_get (fresh t) u) as [ui|] eqn:Eg; [|cbn; intros H; inversion H; apply same_ledger_fresh].
   destruct (N.leb (u_expiry ui) (gk_height (fresh t))); [cbn; intros H; inversion H; apply same_ledger_fresh|].
   destruct (find_trk (db_trks (fresh t)) (loc, u)); [cbn; intros H; inversion H; apply same_ledger_fresh|].
   unfold gk_add_update_appointment. rewrite Eg.
   match goal with |- context [if ?c then _ else _] => destruct c end; cbn [bind]; [|cbn; intros H; inversion H; apply same_ledger_fresh].
+  cbv zeta. rewrite stored_flag_true by (apply store_ok_after_charge; [exact (Hrow u Hmem)|reflexivity]).
   match goal with |- context [bind ?x _] => destruct x as [[] t2|] end; cbn [bind wrap]; intros H; inversion H; exact I.
 Qed.
 
@@ -571,7 +580,7 @@ Theorem add_bal le t signer loc b delay sig sc t' r :
   | _ => same_ledger t t'
   end.
 Proof.
-  intros HI Hstep. destruct r as [st sg sl e| | |]; try exact (add_refused_same le t signer loc b delay sig sc t' _ Hstep).
+  intros HI Hstep. destruct r as [st sg sl e| | |]; try exact (add_refused_same le t signer loc b delay sig sc t' _ (inv_user_rows t HI) Hstep).
   destruct (add_ok_shape le t signer loc b delay sig sc t' st sg sl e HI Hstep) as [u [ui [Hs [Eu [Hle [Hsl [Hu' Ha']]]]]]].
   exists u. split; [exact Hs|].
   assert (Hav : avail t u = u_slots ui) by (unfold avail; rewrite Eu; reflexivity).
@@ -962,7 +971,8 @@ Lemma breach_uuid_loop_BL sc t1 txs d : memN d txs = true -> forall us t inv inv
 Proof.
   intros Hd. induction us as [|uuid us IH]; intros t inv inv' t' HB Hus Hinv; cbn [breach_uuid_loop].
   - intros H; inversion H; subst. split; assumption.
-  - destruct (find_app (db_apps t) uuid) as [a|] eqn:Ef; [|discriminate].
+  - destruct (find_app (db_apps t) uuid) as [a|] eqn:Ef;
+      [|apply IH; [exact HB|intros u Hu; apply Hus; right; exact Hu|exact Hinv]].
     assert (Hl : a_loc a = d).
     { apply find_app_Some in Ef. destruct Ef as [_ He]. rewrite <- (Hus uuid (or_introl eq_refl)), <- He. reflexivity. }
     assert (Hus' : forall u, In u us -> fst u = d) by (intros u Hu; apply Hus; right; exact Hu).
@@ -1301,7 +1311,8 @@ Qed.
 Lemma triggered_height sc t a d t2 : w_store_triggered sc t a d = Ok tt t2 -> gk_height t2 = gk_height t.
 Proof.
   unfold w_store_triggered. destruct (decrypt (a_blob a) d) as [p|].
-  - destruct (w_store_appointment t a) as [[] t1|] eqn:E1; cbn [bind]; [|discriminate]. apply store_height in E1.
+  - destruct (w_store_ok t a); [|intros H; inversion H; reflexivity].
+    destruct (w_store_appointment t a) as [[] t1|] eqn:E1; cbn [bind]; [|discriminate]. apply store_height in E1.
     destruct (r_handle_breach sc t1 (app_uuid a) d p) as [s t3|] eqn:E2; cbn [bind]; [|discriminate].
     apply handle_breach_ua in E2. apply ua_height in E2.
     destruct (status_rejected s); intros H; [apply delete_height in H|inversion H; subst]; congruence.
@@ -1313,16 +1324,18 @@ Lemma add_height le t signer loc b delay sig sc t' r :
 Proof.
   cbn [step wrap]. unfold w_add_appointment. change (set_rpc_log t []) with (fresh t).
   destruct (authenticate (fresh t) signer) as [u|]; [|cbn; intros H; inversion H; reflexivity].
-  destruct (gk_get (fresh t) u) as [ui|] eqn:Eg; [|cbn; intros H; inversion H].
+  destruct (gk_get (fresh t) u) as [ui|] eqn:Eg; [|cbn; intros H; inversion H; reflexivity].
   destruct (N.leb (u_expiry ui) (gk_height (fresh t))); [cbn; intros H; inversion H; reflexivity|].
   destruct (find_trk (db_trks (fresh t)) (loc, u)); [cbn; intros H; inversion H; reflexivity|].
   unfold gk_add_update_appointment. rewrite Eg.
   match goal with |- context [if ?c then _ else _] => destruct c end; cbn [bind]; [|cbn; intros H; inversion H; reflexivity].
-  match goal with |- context [ti_get ?c loc] => destruct (ti_get c loc) as [d|] end.
+  cbv zeta. match goal with |- context [ti_get ?c loc] => destruct (ti_get c loc) as [d|] end.
   - match goal with |- context [w_store_triggered sc ?t1 ?a d] => destruct (w_store_triggered sc t1 a d) as [[] t2|] eqn:E2 end;
-      cbn [bind wrap]; intros H; inversion H; subst. apply triggered_height in E2. exact E2.
+      cbn [bind wrap]; try match goal with |- context [if ?c then _ else _] => destruct c end;
+      intros H; inversion H; subst; apply triggered_height in E2; exact E2.
   - match goal with |- context [w_store_appointment ?t1 ?a] => destruct (w_store_appointment t1 a) as [[] t2|] eqn:E2 end;
-      cbn [bind wrap]; intros H; inversion H; subst. apply store_height in E2. exact E2.
+      cbn [bind wrap]; try match goal with |- context [if ?c then _ else _] => destruct c end;
+      intros H; inversion H; subst; apply store_height in E2; exact E2.
 Qed.
 
 Lemma disconnect_height le t sc t' :
@@ -2057,8 +2070,8 @@ Lemma keeps_store uuid t a t2 : w_store_appointment t a = Ok tt t2 -> keeps uuid
 Proof.
   unfold w_store_appointment. destruct (find_app (db_apps t) (app_uuid a)).
   - intros H; inversion H; subst. split; [reflexivity|]. split; [tauto|]. intros k Hk _. exact Hk.
-  - destruct (amem (db_users t) (a_user a)); intros H; inversion H; subst.
-    split; [reflexivity|]. split; [tauto|]. intros k Hk _. exact Hk.
+  - destruct (amem (db_users t) (a_user a)); intros H; inversion H; subst;
+      (split; [reflexivity|]; split; [tauto|]; intros k Hk _; exact Hk).
 Qed.
 
 Lemma keeps_handle_breach uuid0 sc t uuid d p s t' : r_handle_breach sc t uuid d p = Ok s t' -> keeps uuid0 t t'.
@@ -2075,7 +2088,9 @@ Qed.
 Lemma keeps_triggered sc t a d t2 : w_store_triggered sc t a d = Ok tt t2 -> keeps (app_uuid a) t t2.
 Proof.
   unfold w_store_triggered. destruct (decrypt (a_blob a) d) as [p|].
-  - destruct (w_store_appointment t a) as [[] t1|] eqn:E1; cbn [bind]; [|discriminate].
+  - destruct (w_store_ok t a);
+      [|intros H; inversion H; subst; split; [reflexivity|]; split; [tauto|]; intros k Hk _; exact Hk].
+    destruct (w_store_appointment t a) as [[] t1|] eqn:E1; cbn [bind]; [|discriminate].
     apply (keeps_store (app_uuid a)) in E1.
     destruct (r_handle_breach sc t1 (app_uuid a) d p) as [s t3|] eqn:E2; cbn [bind]; [|discriminate].
     apply (keeps_handle_breach (app_uuid a)) in E2.
@@ -2096,17 +2111,19 @@ Proof.
   assert (Hk : t' = fresh t \/ exists u, find_trk (db_trks t) (loc, u) = None /\ keeps (loc, u) t t').
   { revert Hstep. cbn [step wrap]. unfold w_add_appointment. change (set_rpc_log t []) with (fresh t).
     destruct (authenticate (fresh t) signer) as [u|]; [|cbn; intros H; inversion H; left; reflexivity].
-    destruct (gk_get (fresh t) u) as [ui|] eqn:Eg; [|cbn; intros H; inversion H].
+    destruct (gk_get (fresh t) u) as [ui|] eqn:Eg; [|cbn; intros H; inversion H; left; reflexivity].
     destruct (N.leb (u_expiry ui) (gk_height (fresh t))); [cbn; intros H; inversion H; left; reflexivity|].
     destruct (find_trk (db_trks (fresh t)) (loc, u)) eqn:Ek; [cbn; intros H; inversion H; left; reflexivity|].
     unfold gk_add_update_appointment. rewrite Eg.
     match goal with |- context [if ?c then _ else _] => destruct c end; cbn [bind]; [|cbn; intros H; inversion H; left; reflexivity].
-    intros H. right. exists u. split; [exact Ek|]. revert H.
+    intros H. right. exists u. split; [exact Ek|]. revert H. cbv zeta.
     match goal with |- context [ti_get ?c loc] => destruct (ti_get c loc) as [d|] end.
     - match goal with |- context [w_store_triggered sc ?t1 ?a d] => destruct (w_store_triggered sc t1 a d) as [[] t2|] eqn:E2 end;
-        cbn [bind wrap]; intros H; inversion H; subst. apply keeps_triggered in E2. exact E2.
+        cbn [bind wrap]; try match goal with |- context [if ?c then _ else _] => destruct c end;
+        intros H; inversion H; subst; apply keeps_triggered in E2; exact E2.
     - match goal with |- context [w_store_appointment ?t1 ?a] => destruct (w_store_appointment t1 a) as [[] t2|] eqn:E2 end;
-        cbn [bind wrap]; intros H; inversion H; subst. apply (keeps_store (loc, u)) in E2. exact E2. }
+        cbn [bind wrap]; try match goal with |- context [if ?c then _ else _] => destruct c end;
+        intros H; inversion H; subst; apply (keeps_store (loc, u)) in E2; exact E2. }
   destruct Hk as [Hk|[u [Hnone [K1 [K2 K3]]]]]; [subst t'; exact HR|].
   destruct HR as [Rm Rr]. split; [apply K2; exact Rm|].
   rewrite K1, (add_height le t signer loc b delay sig sc t' r Hstep).
